@@ -68,7 +68,7 @@ func (S) Info() scen.Info {
 			"reference model":      "write-once map (direct interval rule + porcupine v1.3.0 nondeterministic model, partitioned by key)",
 		},
 		QuickUnits: 30000, ThoroughUnits: 3000000, QuickSecs: 40, ThoroughSecs: 1200,
-		ProbeKeys: []string{"probe.fallback_putstream", "probe.fallback_getstream", "probe.fallback_peek", "probe.fallback_putvec", "probe.buffer_scribbled", "probe.key_with_nul", "probe.key_with_slash", "probe.key_dotdot", "probe.key_empty", "probe.concurrent_put_read", "probe.failed_put", "probe.porcupine_checked"},
+		ProbeKeys: []string{"probe.fallback_putstream", "probe.fallback_getstream", "probe.fallback_peek", "probe.fallback_putvec", "probe.buffer_scribbled", "probe.key_with_nul", "probe.key_with_slash", "probe.key_dotdot", "probe.key_empty", "probe.concurrent_put_read", "probe.failed_put", "probe.porcupine_checked", "probe.empty_content"},
 		EventsKey: "events",
 	}
 }
@@ -127,6 +127,8 @@ type world struct {
 	kcls []string
 	cont [][]byte
 	lnks []datamodel.Link
+
+	haveEmpty bool // one key of this history holds the empty block
 
 	backend int
 	bname   string
@@ -235,8 +237,15 @@ func (S) RunTape(t *sim.Tape, st *sim.Stats, keepLog bool) *sim.Outcome {
 		default:
 			content = t.Sub("content").Bytes(5000 + t.Choice(60000, "clen"))
 		}
-		// unique contents
-		content = append(content, byte(i), byte(i>>8), 0xA5)
+		// unique contents (so a read is attributable to one key); one key per history may hold the
+		// empty block, which callers hand over as nil, as []byte{}, as a stream without writes or as
+		// a vector without elements
+		if len(content) == 0 && !w.haveEmpty {
+			w.haveEmpty = true
+			st.Inc("probe.empty_content")
+		} else {
+			content = append(content, byte(i), byte(i>>8), 0xA5)
+		}
 		key, cls, lnk := w.genKey(i, content)
 		for seen[key] {
 			key += "~"
@@ -497,6 +506,9 @@ func (w *world) do(client, kind, k int, pieces []int, end, chunk int, scribble b
 	case 0:
 		h.kind = "put"
 		buf := append([]byte(nil), content...)
+		if len(content) == 0 && scribble {
+			buf = []byte{}
+		}
 		var err error
 		if w.helper {
 			err = storage.Put(ctx, store, key, buf)
@@ -523,6 +535,9 @@ func (w *world) do(client, kind, k int, pieces []int, end, chunk int, scribble b
 		for _, sp := range append(append([]int(nil), pieces...), len(content)) {
 			if sp == prev && sp != len(content) {
 				continue
+			}
+			if len(content) == 0 && scribble {
+				break // the empty block as a stream that is never written to
 			}
 			buf := append([]byte(nil), content[prev:sp]...)
 			if _, err := wr.Write(buf); err != nil {
@@ -588,6 +603,9 @@ func (w *world) do(client, kind, k int, pieces []int, end, chunk int, scribble b
 		vec := make([][]byte, len(bounds))
 		for bi, b := range bounds {
 			vec[bi] = arena[offs[bi] : offs[bi]+(b[1]-b[0])]
+		}
+		if len(content) == 0 && len(pieces) == 0 {
+			vec = nil // the empty block as a vector without elements
 		}
 		err := storage.PutVec(ctx, store, key, vec)
 		if scribble {
@@ -722,6 +740,9 @@ func (w *world) doMem(h *hop, kind, k int, pieces []int, end, chunk int, scribbl
 		}
 		prev := 0
 		for _, sp := range append(append([]int(nil), pieces...), len(content)) {
+			if len(content) == 0 && scribble {
+				break
+			}
 			buf := append([]byte(nil), content[prev:sp]...)
 			wr.Write(buf)
 			if scribble {
